@@ -1094,8 +1094,8 @@ def run(ctx) -> None:
 
     quick = ctx.quick
     ctx.hyp('pdus', run_pdus,
-            pdus_case(cap=4096 if quick else 65535, budget=1200 if quick else 20000, top=not quick),
-            max_examples=ctx.n(600, 24000))
+            pdus_case(cap=4096 if quick else 65535, budget=1200 if quick else 12000, top=not quick),
+            max_examples=ctx.n(600, 16000))
     ctx.hyp('iso', lambda c: run_iso_case(ctx, c), iso_case(), max_examples=ctx.n(500, 24000))
     ctx.hyp('raw', lambda c: run_raw_case(ctx, c), raw_case_strategy(), max_examples=ctx.n(500, 24000))
     ctx.hyp('asm', lambda c: run_raw_case(ctx, c), asm_case_strategy(), max_examples=ctx.n(3000, 160000))
